@@ -129,7 +129,8 @@ class C03(core.Check):
     required_buckets = {b: 3 for b in ['s:0', 's:<first', 's:=first', 's:mid-line', 's:in-gap', 's:>last', 's:=last',
                                        'e:absent', 'e:=last', 'e:mid-line', 'e:in-gap', 'e:>last', 'e:=last+1',
                                        'e:mid-line/same-line', 'last:byte', 'last:label', 'last:muted', 'last:zero-length',
-                                       'last:org', 'fill!=0', 'predefined-data', 'muted-region', 'stale-longer-image-present', 'mute-around-include']}
+                                       'last:org', 'fill!=0', 'predefined-data', 'muted-region', 'stale-longer-image-present', 'mute-around-include',
+                                       's:below-redefined-global', 'e:above-redefined-global', 'e:beyond-address-space']}
 
     def make_case(self, isa, lines, res, lk, s, e, fill, tags):
         fn, text = isamod.render_isa(isa, 'json')
@@ -210,6 +211,40 @@ class C03(core.Check):
                                         'M': {str(a_): v_ for a_, v_ in enumerate(out)}},
                                'tags': ['s:0', 'e:absent', 'muted-region', 'mute-around-include', f'include-at-mute-depth:{depth}'] +
                                        (['fill!=0'] if fill else [])}
+        # windows that reach outside a redefined GLOBAL zone, or beyond a small address space: the window is what the
+        # command line says, whatever the zones are
+        for ab, gs, ge in [(8, 0x10, 0xEF), (8, 0, 0x7F), (8, 0x20, 0xFF), (4, 0, 15), (5, 2, 29), (16, 0x100, 0xFFF)]:
+            top = (1 << ab) - 1
+            gz = None if (gs, ge) == (0, top) else (gs, ge)
+            isa_g = gen_prog.layout_isa(ab, origin=(gs if gz else None), global_zone=gz)
+            fn_g, text_g = isamod.render_isa(isa_g, 'json')
+            body = [0x11, 0x22, 0x33]
+            for at in sorted({gs, gs + 3, ge - 2}):
+                Mg = {at + k_: body[k_] for k_ in range(3)}
+                src_g = f'.org {at}\n.byte $11, $22, $33\n'
+                for s_ in sorted({0, max(0, gs - 1), gs, at + 1}):
+                    for e_ in sorted({ge, ge + 1, ge + 6, top, top + 9, at + 1}) + [None]:
+                        if e_ is not None and e_ < s_:
+                            continue
+                        for fill in (0, 0xA5):
+                            last_ = e_ if e_ is not None else max(Mg)
+                            if last_ < s_:
+                                continue
+                            exp_ = bytes(Mg.get(a_, fill) for a_ in range(s_, last_ + 1))
+                            argv = ['compile', '-c', fn_g, 'p.asm', '-o', 'out.bin'] + (['-s', str(s_)] if s_ else []) + \
+                                (['-e', str(e_)] if e_ is not None else []) + (['-f', str(fill)] if fill else [])
+                            tg = ['window-vs-zones']
+                            if gz and s_ < gs:
+                                tg.append('s:below-redefined-global')
+                            if gz and e_ is not None and e_ > ge:
+                                tg.append('e:above-redefined-global')
+                            if e_ is not None and e_ > top:
+                                tg.append('e:beyond-address-space')
+                            yield {'runs': [{'files': {fn_g: text_g, 'p.asm': src_g}, 'argv': argv, 'probes': ['steps', 'files'],
+                                             'step_limit': 60 * (last_ + 1) + 200000}],
+                                   'meta': {'expected': exp_.hex(), 'kind': 'ACCEPT', 'why': '', 'window': [s_, e_, fill],
+                                            'M': {str(a_): v_ for a_, v_ in sorted(Mg.items())}},
+                                   'tags': tg + (['fill!=0'] if fill else [])}
         if tier == 'thorough':
             for p in range(20):
                 rng = core.rng_for(0, self.pid, 'grid', p)
